@@ -1,4 +1,5 @@
 import Pushr.Interp
+import Pushr.Spec.C15
 /-! # C02 — the run loop honours the step and growth limits and reports the right outcome
 
 `run` = `copyToCode` followed by `runLoop` (the Rust loop verbatim: step-limit check, time check,
@@ -173,5 +174,215 @@ theorem copyToCode_spec (s : State) :
 theorem size_def (s : State) :
     s.size = s.bool.length + s.float.length + s.int.length + s.name.length + s.code.length
       + s.exec.length + s.bvec.length + s.fvec.length + s.ivec.length := rfl
+
+
+
+/-- a step from `p` enlarged the state by more than the growth cap -/
+def Grows (p : State) : Prop := (step X ρ p).2.size > p.size + p.cfg.growthCap
+
+/-- what the outcome says about the iteration `k'` at which the loop stopped in state `s'` -/
+def Verdict (timeout : Nat → Bool) (L : Int) (out : Outcome) (k' : Nat) (s' prev : State) : Prop :=
+  match out with
+  | .noErrors => (k' : Int) ≤ L ∧ timeout k' = false ∧ s'.exec = []
+  | .stepLimit => (k' : Int) > L
+  | .timeLimit => (k' : Int) ≤ L ∧ timeout k' = true
+  | .growthCap => Grows X ρ prev
+
+/-- **complete characterisation of the run loop** (every clock, every configuration). Started at
+iteration `k` in state `s` with enough fuel, the loop stops at some iteration `k' ≥ k` in the state reached
+by `k' - k` single steps; every earlier iteration `j` was inside the step budget, before the time limit,
+had a non-empty EXEC stack and (unless it is the very last one of a GrowthCapExceeded run) did not grow the
+state by more than the cap; and the reported outcome names the first limit that was met at `k'`. -/
+theorem runLoop_spec (hcfg : ∀ s, (step X ρ s).2.cfg = s.cfg) (timeout : Nat → Bool) (fuel k : Nat) (s : State)
+    (hf : (s.cfg.evalPushLimit.toInt + 2 - k).toNat < fuel) (out : Outcome) (k' : Nat) (s' : State)
+    (hr : runLoop X ρ timeout fuel k s = (out, k', s')) :
+    k ≤ k' ∧ s' = stepN X ρ (k' - k) s ∧
+    (∀ j, k ≤ j → j < k' →
+        (j : Int) ≤ s.cfg.evalPushLimit.toInt ∧ timeout j = false ∧ (stepN X ρ (j - k) s).exec ≠ [] ∧
+        (¬ Grows X ρ (stepN X ρ (j - k) s) ∨ (out = .growthCap ∧ j + 1 = k'))) ∧
+    Verdict X ρ timeout s.cfg.evalPushLimit.toInt out k' s' (stepN X ρ (k' - 1 - k) s) ∧
+    (out = .growthCap → k < k') := by
+  induction fuel generalizing k s with
+  | zero => omega
+  | succ fuel ih =>
+    unfold runLoop at hr
+    by_cases h1 : (k : Int) > s.cfg.evalPushLimit.toInt
+    · simp only [h1, if_true, Prod.mk.injEq] at hr
+      obtain ⟨rfl, rfl, rfl⟩ := hr
+      refine ⟨Nat.le_refl _, by simp [stepN], ?_, ?_, by simp⟩
+      · intro j h h'; omega
+      · simpa [Verdict] using h1
+    · simp only [h1, if_false] at hr
+      by_cases h2 : timeout k = true
+      · simp only [h2, if_true, Prod.mk.injEq] at hr
+        obtain ⟨rfl, rfl, rfl⟩ := hr
+        refine ⟨Nat.le_refl _, by simp [stepN], ?_, ?_, by simp⟩
+        · intro j h h'; omega
+        · simp only [Verdict]; exact ⟨by omega, h2⟩
+      · simp only [h2, if_false, Bool.false_eq_true] at hr
+        by_cases h3 : (step X ρ s).1 = true
+        · simp only [h3, if_true, Prod.mk.injEq] at hr
+          obtain ⟨rfl, rfl, rfl⟩ := hr
+          refine ⟨Nat.le_refl _, by simp [stepN], ?_, ?_, by simp⟩
+          · intro j h h'; omega
+          · simp only [Verdict]
+            exact ⟨by omega, by simpa using h2, (step_done_iff X ρ s).mp h3⟩
+        · simp only [h3, if_false, Bool.false_eq_true] at hr
+          have hne : s.exec ≠ [] := fun hh => h3 ((step_done_iff X ρ s).mpr hh)
+          by_cases h4 : (step X ρ s).2.size > s.size + s.cfg.growthCap
+          · simp only [h4, if_true, Prod.mk.injEq] at hr
+            obtain ⟨rfl, rfl, rfl⟩ := hr
+            refine ⟨by simp, by simp [stepN], ?_, ?_, by simp⟩
+            · intro j h h'
+              have : j = k := by omega
+              subst this
+              simp only [Nat.sub_self, stepN]
+              exact ⟨by omega, by simpa using h2, hne, Or.inr (by simp)⟩
+            · simp only [Verdict, Nat.add_sub_cancel, Nat.sub_self, stepN]; exact h4
+          · simp only [h4, if_false] at hr
+            have ih' := ih (k + 1) (step X ρ s).2 (by rw [hcfg]; omega) hr
+            simp only [hcfg] at ih'
+            obtain ⟨a, b, c, d, e⟩ := ih'
+            have hk1 : k' - k = (k' - (k + 1)) + 1 := by omega
+            refine ⟨by omega, ?_, ?_, ?_, fun hg => by have := e hg; omega⟩
+            · rw [b, hk1]; simp [stepN]
+            · intro j hj hj'
+              by_cases hjk : j = k
+              · subst hjk
+                simp only [Nat.sub_self, stepN]
+                exact ⟨by omega, by simpa using h2, hne, Or.inl h4⟩
+              · have := c j (by omega) hj'
+                have hj1 : j - k = (j - (k + 1)) + 1 := by omega
+                rw [hj1]; simpa [stepN] using this
+            · by_cases hrk : k' = k + 1
+              · cases out with
+                | growthCap => have := e rfl; omega
+                | noErrors => simpa [Verdict] using d
+                | stepLimit => simpa [Verdict] using d
+                | timeLimit => simpa [Verdict] using d
+              · have h5 : k' - 1 - k = (k' - 1 - (k + 1)) + 1 := by omega
+                rw [h5]
+                cases out with
+                | growthCap => simpa [Verdict, stepN] using d
+                | noErrors => simpa [Verdict] using d
+                | stepLimit => simpa [Verdict] using d
+                | timeLimit => simpa [Verdict] using d
+
+/-- `run`: the characterisation for a whole top-level run (iteration counter from 0, program copied to CODE) -/
+theorem run_spec (hcfg : ∀ s, (step X ρ s).2.cfg = s.cfg) (timeout : Nat → Bool) (s : State)
+    (out : Outcome) (k' : Nat) (s' : State) (hr : run X ρ timeout s = (out, k', s')) :
+    s' = stepN X ρ k' (copyToCode s) ∧
+    (∀ j, j < k' →
+        (j : Int) ≤ s.cfg.evalPushLimit.toInt ∧ timeout j = false ∧ (stepN X ρ j (copyToCode s)).exec ≠ [] ∧
+        (¬ Grows X ρ (stepN X ρ j (copyToCode s)) ∨ (out = .growthCap ∧ j + 1 = k'))) ∧
+    Verdict X ρ timeout s.cfg.evalPushLimit.toInt out k' s' (stepN X ρ (k' - 1) (copyToCode s)) ∧
+    (out = .growthCap → 0 < k') := by
+  have := runLoop_spec X ρ hcfg timeout ((s.cfg.evalPushLimit.toInt + 2).toNat + 1) 0 (copyToCode s)
+    (by simp [copyToCode]) out k' s' hr
+  obtain ⟨_, b, c, d, e⟩ := this
+  refine ⟨by simpa using b, ?_, by simpa [copyToCode] using d, e⟩
+  intro j hj
+  simpa [copyToCode] using c j (Nat.zero_le _) hj
+
+/-- StepLimitExceeded is never reported for a program that finishes within the budget: if it is reported,
+EXEC was non-empty before every one of the `eval_push_limit + 1` executed steps -/
+theorem run_stepLimit_only_when_needed (hcfg : ∀ s, (step X ρ s).2.cfg = s.cfg) (timeout : Nat → Bool) (s : State)
+    (k' : Nat) (s' : State) (hr : run X ρ timeout s = (.stepLimit, k', s')) :
+    (k' : Int) = max (s.cfg.evalPushLimit.toInt + 1) 0 ∧
+    ∀ j : Nat, (j : Int) ≤ s.cfg.evalPushLimit.toInt → (stepN X ρ j (copyToCode s)).exec ≠ [] := by
+  obtain ⟨_, c, d, _⟩ := run_spec X ρ hcfg timeout s _ _ _ hr
+  have hle := run_steps_le X ρ hcfg timeout s
+  rw [hr] at hle
+  simp only [Verdict] at d
+  refine ⟨by simp only at hle; omega, fun j hj => (c j (by omega)).2.2.1⟩
+
+/-- TimeLimitExceeded is reported only at an iteration at which the clock says the limit has passed, and no
+earlier iteration saw the clock past the limit -/
+theorem run_timeLimit (hcfg : ∀ s, (step X ρ s).2.cfg = s.cfg) (timeout : Nat → Bool) (s : State)
+    (k' : Nat) (s' : State) (hr : run X ρ timeout s = (.timeLimit, k', s')) :
+    timeout k' = true ∧ ∀ j, j < k' → timeout j = false := by
+  obtain ⟨_, c, d, _⟩ := run_spec X ρ hcfg timeout s _ _ _ hr
+  exact ⟨d.2, fun j hj => (c j hj).2.1⟩
+
+/-- GrowthCapExceeded: the LAST executed step, and no earlier one, enlarged the state by more than the cap -/
+theorem run_growthCap (hcfg : ∀ s, (step X ρ s).2.cfg = s.cfg) (timeout : Nat → Bool) (s : State)
+    (k' : Nat) (s' : State) (hr : run X ρ timeout s = (.growthCap, k', s')) :
+    0 < k' ∧ Grows X ρ (stepN X ρ (k' - 1) (copyToCode s)) ∧
+    ∀ j, j + 1 < k' → ¬ Grows X ρ (stepN X ρ j (copyToCode s)) := by
+  obtain ⟨_, c, d, e⟩ := run_spec X ρ hcfg timeout s _ _ _ hr
+  refine ⟨e rfl, d, fun j hj => ?_⟩
+  rcases (c j (by omega)).2.2.2 with h | ⟨_, h⟩
+  · exact h
+  · omega
+
+/-- a program that empties EXEC after `m` steps, inside the budget, with no step growing the state by more than
+the cap and the clock not past the limit, returns NoErrors after exactly `m` steps (so the loop cannot stop
+early and cannot report a limit for it) -/
+theorem runLoop_short (hcfg : ∀ s, (step X ρ s).2.cfg = s.cfg) (timeout : Nat → Bool) (m : Nat) :
+    ∀ (fuel k : Nat) (s : State), m < fuel → ((k + m : Nat) : Int) ≤ s.cfg.evalPushLimit.toInt →
+      (∀ j, j ≤ m → timeout (k + j) = false) →
+      (∀ j, j < m → (stepN X ρ j s).exec ≠ [] ∧ ¬ Grows X ρ (stepN X ρ j s)) →
+      (stepN X ρ m s).exec = [] →
+      runLoop X ρ timeout fuel k s = (.noErrors, k + m, stepN X ρ m s) := by
+  induction m with
+  | zero =>
+    intro fuel k s hf hk ht _ he
+    obtain ⟨f, rfl⟩ : ∃ f, fuel = f + 1 := ⟨fuel - 1, by omega⟩
+    exact runLoop_done X ρ timeout f k s (by simp at hk; omega) (by simpa using ht 0 (Nat.le_refl _)) (by simpa [stepN] using he)
+  | succ m ih =>
+    intro fuel k s hf hk ht hq he
+    obtain ⟨f, rfl⟩ : ∃ f, fuel = f + 1 := ⟨fuel - 1, by omega⟩
+    have h0 := hq 0 (by omega)
+    simp only [stepN] at h0
+    rw [runLoop_unfold_ok X ρ timeout f k s (by omega) (by simpa using ht 0 (by omega)) h0.1 h0.2]
+    have := ih f (k + 1) (step X ρ s).2 (by omega) (by rw [hcfg]; omega)
+      (fun j hj => by have := ht (j + 1) (by omega); rwa [show k + 1 + j = k + (j + 1) by omega])
+      (fun j hj => by simpa [stepN] using hq (j + 1) (by omega))
+      (by simpa [stepN] using he)
+    rw [this, show k + 1 + m = k + (m + 1) by omega]
+    simp [stepN]
+
+theorem run_short_program (hcfg : ∀ s, (step X ρ s).2.cfg = s.cfg) (timeout : Nat → Bool) (m : Nat) (s : State)
+    (hm : (m : Int) ≤ s.cfg.evalPushLimit.toInt) (ht : ∀ j, j ≤ m → timeout j = false)
+    (hq : ∀ j, j < m → (stepN X ρ j (copyToCode s)).exec ≠ [] ∧ ¬ Grows X ρ (stepN X ρ j (copyToCode s)))
+    (he : (stepN X ρ m (copyToCode s)).exec = []) :
+    run X ρ timeout s = (.noErrors, m, stepN X ρ m (copyToCode s)) := by
+  unfold run
+  have := runLoop_short X ρ hcfg timeout m ((s.cfg.evalPushLimit.toInt + 2).toNat + 1) 0 (copyToCode s)
+    (by omega) (by simpa [copyToCode] using hm) (by simpa using ht) hq he
+  simpa using this
+
+
+/-! non-vacuity: the hypotheses of `run_short_program` / `run_spec` are met by a concrete program -/
+section examples
+open Pushr.C15 in
+/-- `( 1 2 INTEGER.+ )` under the default limits: NoErrors after exactly 4 steps, 3 on the INTEGER stack -/
+example :
+    let s : State := { Pushr.C15.emptyState with
+      exec := [.list [.lit (.int 1), .lit (.int 2), .instr (.integer .add)]] }
+    (runFull (fun _ => 0) (fun _ => false) s).1 = .noErrors ∧ (runFull (fun _ => 0) (fun _ => false) s).2.1 = 4
+    ∧ (runFull (fun _ => 0) (fun _ => false) s).2.2.int = [3]
+    ∧ (runFull (fun _ => 0) (fun _ => false) s).2.2.exec = [] := by decide
+/-- the same program with a step budget of 2: StepLimitExceeded after 3 = limit + 1 steps -/
+example :
+    let s : State := { Pushr.C15.emptyState with
+      cfg := { Pushr.C15.emptyState.cfg with evalPushLimit := 2 }
+      exec := [.list [.lit (.int 1), .lit (.int 2), .instr (.integer .add)]] }
+    (runFull (fun _ => 0) (fun _ => false) s).1 = .stepLimit ∧ (runFull (fun _ => 0) (fun _ => false) s).2.1 = 3 := by
+  decide
+/-- growth cap 1: unpacking a three-element list grows the state by 2 > 1 at the first step -/
+example :
+    let s : State := { Pushr.C15.emptyState with
+      cfg := { Pushr.C15.emptyState.cfg with growthCap := 1 }
+      exec := [.list [.lit (.int 1), .lit (.int 2), .instr (.integer .add)]] }
+    (runFull (fun _ => 0) (fun _ => false) s).1 = .growthCap ∧ (runFull (fun _ => 0) (fun _ => false) s).2.1 = 1 := by
+  decide
+/-- a clock that is past the limit at iteration 2 -/
+example :
+    let s : State := { Pushr.C15.emptyState with
+      exec := [.list [.lit (.int 1), .lit (.int 2), .instr (.integer .add)]] }
+    (runFull (fun _ => 0) (fun k => k == 2) s).1 = .timeLimit ∧ (runFull (fun _ => 0) (fun k => k == 2) s).2.1 = 2 := by
+  decide
+end examples
 
 end Pushr.C02
